@@ -118,7 +118,9 @@ type stackOpts struct {
 	resource     string
 	rateLimit    *config.RateLimit
 	legacyCookie bool
-	ssoDomain    string // sso.domain of the server and the proxy ("" = "wonderwall")
+	ssoDomain    string   // sso.domain of the server and the proxy ("" = "wonderwall")
+	sidOptional  bool     // provider metadata does not advertise front-channel session support (C03)
+	audiences    []string // openid.audiences: extra trusted audiences (C03)
 	// C14/C17 (cookies.go, retry.go)
 	cookieSecure     bool   // cfg.Cookie.Secure
 	cookieSameSite   string // cfg.Cookie.SameSite ("" = Lax)
@@ -161,6 +163,12 @@ func (h *logHook) Fire(e *log.Entry) error {
 	h.msgs = append(h.msgs, e.Level.String()+" "+e.Message)
 	h.mu.Unlock()
 	return nil
+}
+
+func (h *logHook) reset() {
+	h.mu.Lock()
+	h.entries, h.msgs = nil, nil
+	h.mu.Unlock()
 }
 
 type stack struct {
@@ -246,6 +254,7 @@ func newStack(o stackOpts) (*stack, error) {
 			Scopes:                []string{"some-scope"},
 			UILocales:             o.uiLocales,
 			ResourceIndicator:     o.resource,
+			Audiences:             o.audiences,
 		},
 		Session: config.Session{
 			MaxLifetime:       o.maxLifetime,
@@ -284,7 +293,7 @@ func newStack(o stackOpts) (*stack, error) {
 		method = openidconfig.AuthMethodClientSecret
 	}
 	s.oidc = &hOpenID{c: &hClient{cfg: cfg, method: method, key: ck},
-		p: &hProvider{issuer: idpIssuer, par: o.par, issParam: o.issParam, sidRequired: true,
+		p: &hProvider{issuer: idpIssuer, par: o.par, issParam: o.issParam, sidRequired: !o.sidOptional,
 			acrSupported: openidconfig.Supported{"idporten-loa-substantial", "idporten-loa-high", "other-acr"},
 			locales:      openidconfig.Supported{"nb", "en"}}}
 	s.idp = newFakeIDP(cfg.OpenID.ClientID)
@@ -415,6 +424,10 @@ func (s *stack) idpGate(r *http.Request) error {
 	case fIdpErr:
 		s.idp.mu.Lock()
 		s.idp.nextMode = "badjson"
+		s.idp.mu.Unlock()
+	case fIdp4xxText:
+		s.idp.mu.Lock()
+		s.idp.nextMode = "4xxtext"
 		s.idp.mu.Unlock()
 	}
 	return nil
